@@ -1,8 +1,8 @@
 /-
-C09 — Lean-checked witness of the open known finding C09-connect-error-leaks-record: an uncaught error in the
-master's connect() leaves the connection record in all_users[] bound to the master; after the next (successful)
-connection nothing points to it any more, and when its client closes, the record is still there: it can never be
-removed (process_io skips its events because ip->ob->interactive != ip).
+C09 — Lean-checked record of the (now repaired) finding C09-connect-error-leaks-record.  Before the fix an uncaught
+error in the master's connect() unwound to backend() and left the connection record in all_users[] bound to the
+master for ever.  With connect() under its own recovery point (safe_apply_master_ob) the error is reported, the
+connection counts as rejected and the record is removed at once.
 -/
 import NV.C09.Model
 
@@ -13,21 +13,15 @@ def leakScripts : Scripts :=
 
 def noHook : HookFn := fun w _ _ => (w, false)
 
-/-- state after the failing connection (client 1) and the next, successful one (client 2) -/
-def leakState : W :=
-  (acceptConn leakScripts noHook (recover (acceptConn leakScripts noHook {} 1).1) 2).1
-
-/-- the failing connect() left through the recovery point (raised = true) with the record bound to the master;
-    after the next connection the record of client 1 (serial 1) is still in its slot, owned by the master, while no
-    object's interactive pointer refers to it any more (the master's is NULL, user 1 holds serial 2): process_io
-    ignores its events for ever (`ip->ob->interactive != ip`) and remove_interactive can never reach it -/
-theorem connect_error_leaks_record :
-    (acceptConn leakScripts noHook {} 1).2 = true ∧
-    (acceptConn leakScripts noHook {} 1).1.inter .master = some 1 ∧
-    ((findConn leakState 1).map (·.ob)) = some Oid.master ∧
-    leakState.inter .master = none ∧
-    leakState.inter (.user 1) = some 2 ∧
-    leakState.crashed = none := by
+/-- the failing connect() no longer propagates (raised = false), the record of client 1 (serial 1) is gone, the
+    master holds no connection, the context depth is back, and the next connection is served normally -/
+theorem connect_error_releases_record :
+    (acceptConn leakScripts noHook {} 1).2 = false ∧
+    (findConn (acceptConn leakScripts noHook {} 1).1 1) = none ∧
+    (acceptConn leakScripts noHook {} 1).1.inter .master = none ∧
+    (acceptConn leakScripts noHook {} 1).1.ctxDepth = 0 ∧
+    (acceptConn leakScripts noHook (acceptConn leakScripts noHook {} 1).1 2).1.inter (.user 1) = some 2 ∧
+    (acceptConn leakScripts noHook (acceptConn leakScripts noHook {} 1).1 2).1.crashed = none := by
   decide
 
 end NV.C09
